@@ -1,0 +1,32 @@
+//go:build verif
+
+package list
+
+// VerifDump is a verification hook (build tag verif): it exposes the raw pointer structure of the
+// list. For every node reachable from the head through next (at most limit nodes) it returns the
+// node's value and the chain position its prev pointer refers to (-1: nil, -2: a node that is not
+// on the chain). cyclic reports whether the next chain runs into itself.
+func (l *DList[T]) VerifDump(limit int) (vals []T, prevs []int, cyclic bool) {
+	pos := map[*DoubleNode[T]]int{}
+	var nodes []*DoubleNode[T]
+	for n := &l.DoubleNode; n != nil && len(nodes) < limit; n = n.next {
+		if _, seen := pos[n]; seen {
+			cyclic = true
+			break
+		}
+		pos[n] = len(nodes)
+		nodes = append(nodes, n)
+	}
+	for _, n := range nodes {
+		vals = append(vals, n.Value)
+		switch p, ok := pos[n.prev]; {
+		case n.prev == nil:
+			prevs = append(prevs, -1)
+		case ok:
+			prevs = append(prevs, p)
+		default:
+			prevs = append(prevs, -2)
+		}
+	}
+	return vals, prevs, cyclic
+}
